@@ -86,6 +86,8 @@ func eqT[T Num](a, b T) bool {
 // runProgram executes p; the shadow is re-simulated alongside as the oracle.
 func runProgram[T Num](c *core.Ctx, b *Backend[T], p *AProg, sides []*realSide[T], o execOpts) {
 	sim := newSim[T](p.Root)
+	sim.base = magBase[T](p.Magnitude, p.Backing != "go")
+	base := sim.base
 	model := "array/" + p.Type
 	viol := func(kind, format string, a ...interface{}) {
 		c.Violate(kind, model, fmt.Sprintf(format, a...))
@@ -203,17 +205,17 @@ func runProgram[T Num](c *core.Ctx, b *Backend[T], p *AProg, sides []*realSide[T
 				case "slice":
 					side.views = append(side.views, v.Slice(cpInts(op.Loc), cpInts(op.Dims), cpInts(op.Step)))
 				case "set":
-					v.Set(cpInts(op.Loc), T(op.Vals[0]))
+					v.Set(cpInts(op.Loc), T(op.Vals[0])+base)
 				case "set1":
-					v.Set1(op.Loc[0], T(op.Vals[0]))
+					v.Set1(op.Loc[0], T(op.Vals[0])+base)
 				case "set2":
-					v.Set2(op.Loc[0], op.Loc[1], T(op.Vals[0]))
+					v.Set2(op.Loc[0], op.Loc[1], T(op.Vals[0])+base)
 				case "set3":
-					v.Set3(op.Loc[0], op.Loc[1], op.Loc[2], T(op.Vals[0]))
+					v.Set3(op.Loc[0], op.Loc[1], op.Loc[2], T(op.Vals[0])+base)
 				case "apply":
-					v.Apply(cpInts(op.Loc), op.Dim, op.St, conv[T](op.Vals))
+					v.Apply(cpInts(op.Loc), op.Dim, op.St, conv[T](op.Vals, base))
 				case "apply1":
-					v.Apply1(op.Loc[0], op.St, conv[T](op.Vals))
+					v.Apply1(op.Loc[0], op.St, conv[T](op.Vals, base))
 				case "applyslice":
 					v.ApplySlice(cpInts(op.Loc), cpInts(op.Step), src)
 				case "copyfrom":
@@ -266,9 +268,9 @@ func runProgram[T Num](c *core.Ctx, b *Backend[T], p *AProg, sides []*realSide[T
 					// aliasing probe (Go-backed contiguous views must alias; the C back-end documents a copy)
 					if o.checkBulk && !side.isC && sv.contiguous() && len(u) > 0 && sv.st.id == 0 {
 						old := u[0]
-						u[0] = T(op.Vals[0])
+						u[0] = T(op.Vals[0]) + base
 						st := side.store()
-						if !eqT(st[sv.offs[0]], T(op.Vals[0])) {
+						if !eqT(st[sv.offs[0]], T(op.Vals[0])+base) {
 							viol(o.prop+"unroll-not-aliasing", "on %s: writing through Unroll() of a contiguous view did not reach the storage", side.name)
 						}
 						u[0] = old
@@ -361,7 +363,10 @@ func runProgram[T Num](c *core.Ctx, b *Backend[T], p *AProg, sides []*realSide[T
 			anyStepped = true
 		}
 	}
-	c.Class(fmt.Sprintf("%s/%s/nd%d/depth%d/steppedChain%v", p.Type, p.Backing, len(p.Root), maxDepth, anyStepped))
+	c.Class(fmt.Sprintf("%s/%s/nd%d/depth%d/steppedChain%v/mag%s", p.Type, p.Backing, len(p.Root), maxDepth, anyStepped, p.Magnitude))
+	if p.Magnitude != "" {
+		c.Tag("values-at-type-range-ends")
+	}
 	if anyStepped {
 		c.Count("histories_with_slice_of_stepped_slice", 1)
 	}
